@@ -16,7 +16,7 @@ From MV Require Import Base.PyStr Base.Res Nest.Lines Nest.Split Nest.Nest Nest.
   Nest.RefutedProofs Nest.FenceProofs Nest.ShiftProofs Gen.NestSrc Nest.NestSrcProofs.
 Import ListNotations.
 Open Scope N_scope.
-From MV Require Import Nest.C06Lemmas.
+From MV Require Import Nest.C06Lemmas Nest.InclProofs.
 
 (* For every token (headings too when the current node is not a document/section; otherwise
    wherever no heading is rendered at section level), at any fuel, from any state whose current
@@ -299,6 +299,35 @@ Theorem C06_subst_transparent_src :
     = Ok (ns, set_subrefs (remove_all (o_sub_names orc key) (s_subrefs h2)) h2).
 Proof. exact C06_subst_transparent_src_l. Qed.
 Print Assumptions C06_subst_transparent_src.
+
+(* Include histories.  The chain md_env["include_log"] that the include directive uses for its
+   circular-inclusion test is bookkeeping that every include restores (log_oracles: the opaque
+   directives and eval-rst do not touch it): after any token has been rendered the chain is what
+   it was before - so a file may be included any number of times in one document; in particular
+   after MockIncludeDirective.run returns; and for the try/finally of run() as regenerated from
+   the source (Gen/NestSrc.v include_tail_src: include_log.append ... finally include_log.pop()). *)
+Theorem C06_include_chain_restored :
+  forall (env : Type) (orc : oracles env), adm_spec env orc -> log_oracles env orc ->
+  forall f (s : st env) t s', render_tok env orc f s t = Ok s' -> s_incl (shr s') = s_incl (shr s).
+Proof. intros env orc Hadm Hlog f. exact (render_tok_keeps env orc Hadm Hlog f). Qed.
+Print Assumptions C06_include_chain_restored.
+
+Theorem C06_include_log_restored :
+  forall (env : Type) (orc : oracles env), adm_spec env orc -> log_oracles env orc ->
+  forall f (s : st env) p r,
+    include_run env orc (render_tok env orc f) s p = Ok r -> s_incl (shr (snd r)) = s_incl (shr s).
+Proof.
+  intros env orc Hadm Hlog f. exact (include_run_keeps env orc _ (render_tok_keeps env orc Hadm Hlog f)).
+Qed.
+Print Assumptions C06_include_log_restored.
+
+Theorem C06_include_log_restored_src :
+  forall (env : Type) (orc : oracles env), adm_spec env orc -> log_oracles env orc ->
+  forall f (s : st env) a file ho s',
+    include_tail_src env orc (render_tok env orc f) s a file 0 ho = Ok s' ->
+    s_incl (shr s') = s_incl (shr s).
+Proof. intros env orc Hadm Hlog. exact (include_tail_src_restores env orc Hadm Hlog). Qed.
+Print Assumptions C06_include_log_restored_src.
 
 (* "... with reference definitions ... inside it remaining usable from the rest of the
    document" does not hold: there are oracles (a parser that, like markdown-it, resolves
